@@ -146,6 +146,7 @@ class Runner(object):
         import ddsverif_rt as rtm
         opts = opts or {}
         del rtm.LOG[:]
+        del rtm.RAISED[:]
         res = {"value": None, "error": None, "log": None, "paths": None, "synced": None, "stored": None, "idle": True}
         self.captured_paths = None
         if self.mode == "real":
@@ -183,8 +184,8 @@ class Runner(object):
                 code = getattr(e, "error_code", None)
                 res["error"] = {"kind": "dds", "code": code.name if code is not None else None, "msg": str(e)[:300]}
             else:
-                res["error"] = {"kind": "exc", "cls": cls, "token": str(e.args[0]) if e.args else "", "id": id(e)}
-                self.last_exc = e
+                res["error"] = {"kind": "exc", "cls": cls, "token": str(e.args[0]) if e.args else "",
+                                "same_object": bool(rtm.RAISED) and e is rtm.RAISED[-1]}
         res["log"] = list(rtm.LOG)
         if self.mode == "real":
             import dds._api as api
